@@ -57,6 +57,9 @@ func Lookup(pkgs []*packages.Package, module string) *Result {
 				if !ok || fd.Body == nil {
 					continue
 				}
+				if Unchanged(strings.TrimPrefix(strings.TrimPrefix(p.PkgPath, module), "/"), fd) {
+					continue // as on the reference tree: left as written
+				}
 				pl.curFile, pl.curFunc = f, FuncKey(fd)
 				lk := &lookup{pl: pl, fn: fd, tabs: tabs}
 				if n := lk.run(); n > 0 {
